@@ -2,8 +2,18 @@
 """Generate /verif/MANIFEST.json from tools/worlds.json and tools/props_meta.json."""
 import json, os
 ROOT = '/verif'
-worlds = json.load(open(f'{ROOT}/tools/worlds.json'))
-meta = json.load(open(f'{ROOT}/tools/props_meta.json'))
+import glob
+worlds = {'worlds': {}, 'properties': {}}
+meta = {}
+for f in sorted(glob.glob(f'{ROOT}/tools/worlds.d/*.json')):
+    w = json.load(open(f))
+    worlds['worlds'][w['name']] = w
+    for pid, m in w['properties'].items():
+        worlds['properties'][pid] = w['name']
+        meta[pid] = m
+for pid, reason in json.load(open(f'{ROOT}/tools/not_applicable.json')).items():
+    if pid not in meta:
+        meta[pid] = {'na_reason': reason}
 props = [json.loads(l) for l in open(f'{ROOT}/properties.jsonl')]
 checks = []
 na = []
